@@ -456,6 +456,15 @@ impl UdpProxy {
         }
     }
 
+    /// Tokens of the listeners bound to `address`
+    pub fn listener_tokens(&self, address: &SocketAddr) -> Vec<Token> {
+        self.listeners
+            .iter()
+            .filter(|(_, listener)| listener.borrow().address == *address)
+            .map(|(token, _)| *token)
+            .collect()
+    }
+
     pub fn remove_listener(&mut self, address: SocketAddr) -> SessionIsToBeClosed {
         let len = self.listeners.len();
         let mut removed_tokens = Vec::new();
